@@ -289,7 +289,8 @@ CHECKS["C09"] = dict(
     props=[dict(name="TestPropHTTPAuth", quick=240, thorough=16 * 1500, shards_quick=12, shards_thorough=16, timeout_quick=900, timeout_thorough=7200),
            dict(name="TestPropLogin", quick=180, thorough=16 * 1200, shards_quick=12, shards_thorough=16, timeout_quick=900, timeout_thorough=7200),
            dict(name="TestPropBusToken", quick=48, thorough=16 * 200, shards_quick=4, shards_thorough=16),
-           dict(name="TestEnumTokenExpiresWhileInUse", rapid=False, quick=1, thorough=1)],
+           dict(name="TestEnumTokenExpiresWhileInUse", rapid=False, quick=1, thorough=1),
+           dict(name="TestEnumBusTokenRealServer", rapid=False, quick=1, thorough=1)],
     rule="HTTP: api.NewAppHandler (JwtAuth = the store's authorizer, AuthToken set) driven in-process with httptest; per case "
          "5-40 requests: method (standard + junk) x path grammar over /v1/nodes[/<id>[/points|samples|parents|not|junk]] "
          "with path tricks and non-node routes x JSON or junk bodies x 19 credential classes (none, the auth token, mangled "
